@@ -12,3 +12,17 @@ for _p in ('C04', 'C05'):
         stages=[dict(name='model', bin='replay', args=['-prop', _p], shards=shards(4, 16), par=16, timeout=1500)],
         need_counters=['checks', 'accepts'] + (['replays_attempted'] if _p == 'C04' else []),
     )
+
+_pbuf = {'pbuf': dict(pkg='./cmd/pbuf', overlay='shim')}
+PROPS['C06'] = dict(
+    level='exploration', builds=dict(_pbuf, pbuf_race=dict(pkg='./cmd/pbuf', overlay='shim', race=True)),
+    stages=[dict(name='seq', bin='pbuf', args=['-prop', 'C06', '-mode', 'seq'], shards=shards(4, 16), par=16),
+            dict(name='conc', bin='pbuf_race', args=['-prop', 'C06', '-mode', 'conc'], shards=shards(4, 16), par=16, crash_is_violation=True)],
+    replay_stage='seq',
+    need_counters=['writes', 'reads', 'read_across_ring_end', 'grow_events', 'linearizable'],
+)
+PROPS['C07'] = dict(
+    level='exploration', builds=_pbuf,
+    stages=[dict(name='seq', bin='pbuf', args=['-prop', 'C07', '-mode', 'seq'], shards=shards(4, 16), par=16)],
+    need_counters=['writes', 'reads', 'refused_by_count', 'refused_by_size', 'refused_by_cap'],
+)
